@@ -52,17 +52,31 @@ LIB_TEMPLATES = [
 ]
 
 
-def surface(src):
-    """top-level defs/classes, top-level assignment targets (every Name in the target, incl. list / starred / annotated), methods and
-    attributes assigned in the body of top-level classes"""
+def module_scope(body):
+    """statements executed in module scope: the module body and, recursively, the bodies of its if / try / with / for / while"""
+    for n in body:
+        yield n
+        for field in ("body", "orelse", "finalbody"):
+            if not isinstance(n, (ast.FunctionDef, ast.AsyncFunctionDef, ast.ClassDef)):
+                yield from module_scope(getattr(n, field, []) or [])
+        for h in getattr(n, "handlers", []) or []:
+            yield from module_scope(h.body)
+
+
+def surface(src, deep=False):
+    """defs / classes and assignment targets at the top level of the module (every Name in the target, incl. list / starred /
+    annotated), methods and attributes assigned in the body of those classes.  C07 speaks about the top level only; `deep=True`
+    (used by C08, where the names are given by a preserve set) also looks under if / try / with / loops of module scope."""
     m = ast.parse(src)
     names = set()
-    for n in m.body:
+    for n in (module_scope(m.body) if deep else m.body):
         if isinstance(n, (ast.FunctionDef, ast.AsyncFunctionDef, ast.ClassDef)):
             names.add(n.name)
         if isinstance(n, (ast.Assign, ast.AnnAssign, ast.AugAssign)):
             targets = n.targets if isinstance(n, ast.Assign) else [n.target]
             for t in targets:
+                if isinstance(t, (ast.Attribute, ast.Subscript)):
+                    continue
                 for x in ast.walk(t):
                     if isinstance(x, ast.Name):
                         names.add(x.id)
@@ -77,3 +91,27 @@ def surface(src):
                             if isinstance(x, ast.Name):
                                 names.add(f"{n.name}.{x.id}")
     return names
+
+
+LIB_TEMPLATES += [
+    # class-body targets of every shape, read through self only
+    "class Release:\n    first, *rest = [1, 2, 3]\n    [low, high] = (0, 9)\n    (a, b), c = (1, 2), 3\n    count: int = 0\n    total = 0\n    total += 1\n\n"
+    "    def span(self):\n        return self.high - self.low + len(self.rest) + self.c\n\n\ndef make():\n    return Release().span()\n",
+    # attributes attached after the class statement
+    "class Settings:\n    def load(self, path):\n        return path + self.suffix\n\n    def dump(self):\n        return self.level\n\n\nSettings.suffix = '.cfg'\nSettings.level = 3\n\n\n"
+    "def run():\n    return Settings().load('a'), Settings().dump()\n",
+    # a class defined in both arms of a condition, with magic methods, never instantiated here
+    "import sys\n\nif sys.platform == 'win32':\n    class PathInfo:\n        def __init__(self, raw):\n            self.parts = raw.split('\\\\')\n\n        def __len__(self):\n            return len(self.parts)\nelse:\n"
+    "    class PathInfo:\n        def __init__(self, raw):\n            self.parts = raw.split('/')\n\n        def __len__(self):\n            return len(self.parts)\n",
+    # properties, classmethods, nested helpers
+    "class Box:\n    def __init__(self, w):\n        self._w = w\n\n    @property\n    def width(self):\n        return self._w\n\n    @classmethod\n    def unit(cls):\n        return cls(1)\n\n"
+    "    @staticmethod\n    def describe():\n        return 'box'\n\n\ndef outer(v):\n    def inner(q):\n        return q + 1\n    return inner(v)\n",
+    # __all__, optional imports, dunder names
+    "__all__ = ['public_fn', 'PublicThing']\n__version__ = '1.0'\n\ntry:\n    import json as _json\nexcept ImportError:\n    _json = None\n\n\ndef public_fn(x):\n    return x\n\n\n"
+    "def not_exported(y):\n    return y\n\n\nclass PublicThing:\n    pass\n",
+    # annotated class attributes without values, enum-like constants, slots
+    "class Point:\n    x: int\n    y: int = 0\n    __slots__ = ('x', 'y')\n\n\nclass Color:\n    RED = 1\n    GREEN = 2\n    blueish = 3\n\n\nORIGIN = None\n",
+    # async / generator definitions, names bound by loops, with and walrus in module scope
+    "import contextlib\n\n\nasync def fetchAll(n):\n    return n\n\n\ndef countUp(n):\n    for i in range(n):\n        yield i\n\n\nfor idx in range(3):\n    lastSeen = idx\n\n"
+    "with contextlib.nullcontext(5) as handle:\n    doubled = handle * 2\n\nif (found := doubled) > 3:\n    flagged = True\n",
+]
